@@ -445,9 +445,13 @@ C09_Step ==
 C09_LocalCreate == [][NotReset => C09_Step]_vars
 
 \* C10: sealing rules
+\* "the genesis vertex" of a ledger is the parentless vertex issued and sealed by the wallet the ledger took as its genesis
+\* wallet: the vertex CreateGenesis made, or - on a node that synced - the self-sealed root of the stream it was given
+\* (LoadDag authenticates nothing; what a forged stream can make a node believe is an observation, not this property)
+IsGenesisOf(b, v) == V(v).l = NoV /\ V(v).r = NoV /\ T(v).iss = b.gen /\ V(v).sealer = b.gen
 C10_SealingRules ==
     \A n \in Loaded : \A v \in Held(book[n]) :
-        \/ IsGenesisV(v) /\ T(v).rcv # T(v).iss
+        \/ IsGenesisOf(book[n], v) /\ T(v).rcv # T(v).iss
         \/ /\ T(v).iss # V(v).sealer
            /\ T(v).iss # book[n].gen
            /\ ~IsEmptyTrx(T(v))
